@@ -544,7 +544,9 @@ func (ex *Exec) scanEffects(n ast.Node, vars map[types.Object]bool, eff *effects
 		if o := baseObj(e); o != nil {
 			vars[o] = true
 			if ex.boxed[o] && eff != nil {
-				eff.heapAll = true
+				for _, c := range ex.boxedComps(o) {
+					eff.comps[c] = true
+				}
 			}
 		}
 	}
@@ -627,6 +629,13 @@ func (ex *Exec) scanEffects(n ast.Node, vars map[types.Object]bool, eff *effects
 						if tv, ok := info.Types[fun]; ok && tv.Type != nil {
 							if sg, ok := tv.Type.Underlying().(*types.Signature); ok && funcValueIsSink(sg) {
 								eff.ghost["fail"] = true
+							}
+						}
+						if ex.countsCallbacks() {
+							for g := range ex.cs.Ghost {
+								if strings.HasPrefix(g, "cbArg") || g == "cbCalls" {
+									eff.ghost[g] = true
+								}
 							}
 						}
 					}
@@ -713,7 +722,9 @@ func (ex *Exec) havocAssigned(st *State, n ast.Node) {
 	for obj := range vars {
 		if _, ok := st.vars[obj]; ok {
 			if ex.boxed[obj] {
-				eff.heapAll = true
+				for _, c := range ex.boxedComps(obj) {
+					eff.comps[c] = true
+				}
 				continue
 			}
 			ex.havocVar(st, obj)
@@ -732,3 +743,16 @@ func (ex *Exec) havocAssigned(st *State, n ast.Node) {
 }
 
 var _ = packages.NeedName
+
+// boxedComps: the heap components an address-taken local of this type lives in.
+func (ex *Exec) boxedComps(obj types.Object) []string {
+	t := obj.Type()
+	if stt, ok := t.Underlying().(*types.Struct); ok {
+		var out []string
+		for i := 0; i < stt.NumFields(); i++ {
+			out = append(out, ex.compName(t, fieldAcc(stt.Field(i), i)))
+		}
+		return out
+	}
+	return []string{"ptr." + sanitize(ex.sortOf(t).Name)}
+}
